@@ -61,6 +61,7 @@ QSEG = [[(0.25, 0.5), (3.75, 1.5)], [(0.5, 3.5), (3.5, 0.5)], [(1, 0), (1, 4)], 
 KINDS = ["tc2", "tc3", "net_post", "net_pre", "net_rebuilt"]
 
 OBLIGATIONS = {
+    "query_after_a_query_that_leaves_the_extent": "a track / segment query judged right after the same index was asked for a track and a segment that leave the extent of the grid",
     "network_index_rebuilt_after_an_edge_was_added": "a network was indexed, got an edge that sticks out of the indexed extent, and was indexed again",
     "decimal_coordinates": "an index over decimal coordinates of mixed sign (extent [-5, 5.7] x [-4.9, 2.6]) with margin 0 and the default margin",
     "on_feature_query_on_a_cell_border": "a point query at a vertex / segment middle of a feature that lies on a cell border returned that feature",
@@ -529,9 +530,17 @@ def check_on_feature(B, k, qx, qy, ctx):
     return True
 
 
-def check_query(B, pts, form, ctx):
-    """(3) request([c1,c2]) / request(track) contains everything registered in a crossed cell."""
+def check_query(B, pts, form, ctx, after_refused=False):
+    """(3) request([c1,c2]) / request(track) contains everything registered in a crossed cell.
+    after_refused: the index is first asked for a track that runs along the query and then leaves the extent of the grid (outside
+    the statement: refused or answered, as the index likes); the judged query comes right after it."""
     case = dict(B.spec, op="query", form=form, pts=[list(p) for p in pts])
+    if after_refused:
+        case["after_refused"] = True
+        w = (B.G["xmax"] - B.G["xmin"]) + (B.G["ymax"] - B.G["ymin"])
+        guard(B.si.request, _qtrack(list(pts) + [(B.G["xmax"] + w, B.G["ymax"] + w)]))
+        guard(B.si.request, [ENUCoords(pts[0][0], pts[0][1], 0.0), ENUCoords(B.G["xmin"] - w, pts[0][1], 0.0)])
+        ctx.oblige("query_after_a_query_that_leaves_the_extent")
     crossed = sorted(poly_cells(B.G, pts))
     if form == "segment":
         arg = [ENUCoords(pts[0][0], pts[0][1], 0.0), ENUCoords(pts[1][0], pts[1][1], 0.0)]
@@ -652,6 +661,8 @@ def run_index(spec, full_nbh, ctx):
         if key not in done:
             done.add(key)
             ctx.case(check_query(B, f, "track", ctx))
+            ctx.case(check_query(B, f, "track", ctx, after_refused=True))
+            ctx.case(check_query(B, [f[0], f[1]], "segment", ctx, after_refused=True))
         for s in range(len(f) - 1):
             key = ("segment", f[s], f[s + 1])
             if key not in done:
@@ -687,7 +698,7 @@ def replay(case, ctx):
     elif case["op"] == "onfeature":
         check_on_feature(B, case["k"], case["q"][0], case["q"][1], ctx)
     elif case["op"] == "query":
-        check_query(B, [tuple(p) for p in case["pts"]], case["form"], ctx)
+        check_query(B, [tuple(p) for p in case["pts"]], case["form"], ctx, after_refused=case.get("after_refused", False))
     elif case["op"] == "nbh":
         check_nbh(B, case["q"][0], case["q"][1], case["d"], ctx)
 
